@@ -381,7 +381,8 @@ class PEP8Normalizer(ErrorFinder):
         if type_ == 'error_leaf':
             return
 
-        if value == ',' and part.parent.type == 'dictorsetmaker':
+        if value == ',' and part.parent.type == 'dictorsetmaker' \
+                and self._indentation_tos.type == IndentationTypes.IMPLICIT:
             self._indentation_tos = self._indentation_tos.parent
 
         node = self._indentation_tos
